@@ -110,3 +110,61 @@ Qed.
 Theorem scriptlet_order_is_model :
   scriptlet_order = [G_gate; G_kind; G_deps; G_push_self_if_absent].
 Proof. reflexivity. Qed.
+
+(* ====================================================================================== *)
+(* ResourceStorage::add_resource (Generated.AddResGen: its statements in source order)      *)
+(* ====================================================================================== *)
+Import AddResGen.
+
+Definition mime_error (r : resource) : option add_err :=
+  match r_kind r with
+  | RK_Mime ct =>
+      if negb (null (r_deps r)) && negb (c18_supports_dependencies ct)
+      then Some ContentTypeDoesNotSupportDependencies
+      else match r_decoded r with
+           | BadBase64 => Some InvalidBase64Content
+           | NotUtf8 => if c18_is_textual ct then Some InvalidUtf8Content else None
+           | Text _ => None
+           end
+  | RK_Template => None
+  end.
+
+(* the statements run over the two maps; a rejecting statement returns the store AS IT IS AT THAT
+   POINT together with the error (what a `return Err(..)` in the middle of the function leaves) *)
+Fixpoint run_add (steps : list astep) (st : store) (r : resource) : option (store * option add_err) :=
+  match steps with
+  | [] => None
+  | s :: rest =>
+      match s with
+      | A_mime_checks =>
+          match mime_error r with Some e => Some (st, Some e) | None => run_add rest st r end
+      | A_reject_if_any_identifier_taken =>
+          if existsb (contains_ident st) (r_name r :: r_aliases r) then Some (st, Some NameAlreadyAdded)
+          else run_add rest st r
+      | A_insert_aliases =>
+          run_add rest (mkStore (st_res st) (st_alias st ++ map (fun a => (a, r_name r)) (r_aliases r))) r
+      | A_insert_resource =>
+          run_add rest (mkStore (st_res st ++ [r]) (st_alias st)) r
+      | A_ok => Some (st, None)
+      end
+  end.
+Definition interp_add_resource := run_add ar_steps.
+
+Theorem interp_add_resource_is_model st r :
+  interp_add_resource st r = Some (add_resource st r).
+Proof.
+  unfold interp_add_resource, ar_steps, add_resource. cbn [run_add]. fold (mime_error r).
+  destruct (mime_error r); [reflexivity|].
+  destruct (existsb (contains_ident st) (r_name r :: r_aliases r)); reflexivity.
+Qed.
+
+(* a rejected resource leaves nothing behind: every rejection precedes every insertion *)
+Corollary rejected_add_changes_nothing st r e :
+  interp_add_resource st r = Some (fst (add_resource st r), Some e) -> fst (add_resource st r) = st.
+Proof.
+  rewrite interp_add_resource_is_model. intros H. injection H as H.
+  unfold add_resource in *. fold (mime_error r) in *.
+  destruct (mime_error r); [reflexivity|].
+  destruct (existsb (contains_ident st) (r_name r :: r_aliases r)); [reflexivity|].
+  cbn in H. discriminate.
+Qed.
